@@ -3,7 +3,7 @@
    Proofs/UslpProofs.v and Proofs/UslpFrameProofs.v. *)
 From Coq Require Import ZArith List.
 From SP Require Import Base.Result Base.Bytes Model.UslpHeader Model.UslpFrame Spec.UslpSpec
-  Proofs.UslpProofs Proofs.UslpFrameProofs.
+  Proofs.UslpProofs Proofs.UslpFrameProofs Proofs.UslpMismatch.
 Import ListNotations.
 Open Scope Z_scope.
 
@@ -85,6 +85,14 @@ Theorem C17_thdr_len : forall b, base_valid b ->
   exists p, thdr_pack b = Ok p /\ len p = thdr_len b.
 Proof. exact thdr_len_is_pack_length. Qed.
 Print Assumptions C17_thdr_len.
+
+(* the sizes themselves: 7 + n octets (n = VCF count length 0..7) and 4 octets *)
+Theorem C17_hdr_layout_len : forall h, 0 <= vcf_len h <= 7 -> len (phdr_layout h) = 7 + vcf_len h.
+Proof. exact phdr_layout_len_explicit. Qed.
+Print Assumptions C17_hdr_layout_len.
+Theorem C17_thdr_layout_len : forall b, len (thdr_layout b) = 4.
+Proof. exact thdr_layout_len_explicit. Qed.
+Print Assumptions C17_thdr_layout_len.
 
 Theorem C17_determine_header_type : forall o0 o1 o2 o3 rest, 0 <= o3 < 256 ->
   determine_header_type (o0 :: o1 :: o2 :: o3 :: rest) = Ok (o3 mod 2).
@@ -218,6 +226,78 @@ Theorem C17_mismatch_pointer_cut : forall raw e r, 1 <= len raw -> py_get raw 0 
   tfdf_unpack raw false e (Some FtFixed) = Err EInvalidLen.
 Proof. exact tfdf_unpack_pointer_cut. Qed.
 Print Assumptions C17_mismatch_pointer_cut.
+
+(* ---- mismatching insert-zone / FECF parameters, at frame level ----
+   For ANY octet string, either frame type and any managed parameters with non-negative sizes:
+   a returned frame has its insert zone and FECF present exactly as the managed parameters say
+   and of exactly the managed sizes. *)
+Theorem C17_unpack_zone_sizes : forall raw ft p g,
+  frame_unpack raw ft p = Ok g ->
+  (iz_present p = true -> 0 <= iz_size p) -> (fecf_present p = true -> 0 <= fecf_size p) ->
+  is_some (izone g) = iz_present p /\ (iz_present p = true -> opt_len (izone g) = iz_size p) /\
+  is_some (fecf g) = fecf_present p /\ (fecf_present p = true -> opt_len (fecf g) = fecf_size p).
+Proof. exact frame_unpack_zone_sizes. Qed.
+Print Assumptions C17_unpack_zone_sizes.
+
+(* hence: wrong presence or wrong size of the insert zone or the FECF never reproduces the frame
+   (unpack raises, or returns a frame with other zones), for every frame type asked for, every
+   other setting of p' and any octets behind the frame.  Negative sizes (not refused by the
+   managed-parameter constructors; Python's negative slice bounds count from the end) excluded. *)
+Theorem C17_mismatch_zones : forall f p p' ft rest,
+  props_match f p ->
+  (iz_present p' = true -> 0 <= iz_size p') -> (fecf_present p' = true -> 0 <= fecf_size p') ->
+  (iz_present p' <> iz_present p \/ fecf_present p' <> fecf_present p \/
+   (iz_present p' = true /\ iz_present p = true /\ iz_size p' <> iz_size p) \/
+   (fecf_present p' = true /\ fecf_present p = true /\ fecf_size p' <> fecf_size p)) ->
+  frame_unpack (frame_layout (hdr_layout (hdr f)) f ++ rest) ft p' <> Ok (frame_norm f).
+Proof. exact frame_unpack_props_mismatch. Qed.
+Print Assumptions C17_mismatch_zones.
+
+(* when unpack does fail on the octets of a packed frame under parameters of the right class, the
+   error is UslpInvalidRawPacketOrFrameLen or UslpInvalidConstructionRules, nothing else *)
+Theorem C17_mismatch_error_class : forall f p' rest x,
+  frame_consistent f ->
+  p_fixed p' = (match ftype_of_rule (rules (ftfdf f)) with FtFixed => true | FtVariable => false end) ->
+  frame_unpack (frame_layout (hdr_layout (hdr f)) f ++ rest) (ftype_of_rule (rules (ftfdf f))) p' = Err x ->
+  x = EInvalidLen \/ x = EInvalidConstrRules.
+Proof. exact frame_unpack_mismatch_error_class. Qed.
+Print Assumptions C17_mismatch_error_class.
+
+(* "mismatching parameters RAISE the USLP errors" cannot hold for every mismatch: when the wrong
+   sizes still add up (insert zone one octet longer, FECF one octet shorter) no length check can
+   notice, the data field is read one octet late and a DIFFERENT frame is returned without any
+   error.  Same behaviour on the implementation (replayed): insert zone 00000000e0, data zone
+   02030405060703, FECF 04 instead of 00000000 / e0020304050607 / 0304. *)
+Theorem C17_mismatch_zones_raise_refuted :
+  frame_consistent shifted_zone_frame /\ frame_len_set shifted_zone_frame /\
+  props_match shifted_zone_frame (shifted_zone_props 4 2) /\
+  exists g, frame_unpack (frame_layout (hdr_layout (hdr shifted_zone_frame)) shifted_zone_frame)
+                         FtVariable (shifted_zone_props 5 1) = Ok g /\
+            g <> frame_norm shifted_zone_frame /\
+            izone g = Some [0; 0; 0; 0; 224] /\ fecf g = Some [4] /\
+            tfdz (ftfdf g) = [2; 3; 4; 5; 6; 7; 3].
+Proof. exact frame_unpack_zones_mismatch_may_decode. Qed.
+Print Assumptions C17_mismatch_zones_raise_refuted.
+
+(* ---- construction rule / frame type mismatch at frame level: a non-truncated frame unpacked
+   as the other frame type than its construction rule's, everything else matching
+   (props_match_as: class and fixed length as FIXED demands, insert zone and FECF as packed) ---- *)
+Theorem C17_mismatch_rule_frame : forall f p ft rest, frame_consistent f -> frame_len_set f ->
+  hdr_truncated (hdr f) = false -> ft <> ftype_of_rule (rules (ftfdf f)) -> props_match_as f ft p ->
+  frame_unpack (frame_layout (hdr_layout (hdr f)) f ++ rest) ft p = Err EInvalidConstrRules.
+Proof. exact frame_unpack_rule_mismatch. Qed.
+Print Assumptions C17_mismatch_rule_frame.
+Example C17_mismatch_rule_frame_nonvacuous :
+  props_match_as shifted_zone_frame FtFixed
+    {| p_fixed := true; p_len := 21; iz_present := true; iz_size := 4;
+       fecf_present := true; fecf_size := 2 |} /\
+  FtFixed <> ftype_of_rule (rules (ftfdf shifted_zone_frame)).
+Proof. exact rule_mismatch_nonvacuous. Qed.
+
+(* Note on C17_mismatch_fixed_wrong_class and C17_mismatch_truncated_fixed_props above: the
+   implementation raises a plain ValueError there (`if not isinstance(frame_properties, ...):
+   raise ValueError`), not one of the seven USLP exception classes; the model is faithful
+   (replayed on the code). *)
 
 (* recorded finding (known_findings.d/uslp.json): with a pointer supplied for a rule that has
    none, len() is not the packed size; C17_frame_len above therefore carries the hypothesis
